@@ -331,6 +331,9 @@ func httpMergeTrailers(header http.Header, trailer http.Header) {
 		if !strings.HasPrefix(key, http.TrailerPrefix) {
 			key = http.TrailerPrefix + key
 		}
+		// What is merged here is authoritative (e.g. the final gRPC status): it
+		// replaces a value the handler may have stored under the same key earlier.
+		header.Del(key)
 		for _, val := range vals {
 			header.Add(key, val)
 		}
